@@ -220,6 +220,14 @@ def St.atRest (s : St) : Bool :=
 
 /-! ### vocabulary of the C10 statements -/
 
+/-- the documented machine as the property states it: start, load, introspect, run; submit and
+    back; archive and back to where it came from; update, archive, refresh -/
+def documented : List (State × State) :=
+  [(.starting, .loading), (.loading, .contemplation), (.contemplation, .running),
+   (.running, .gitting), (.gitting, .running),
+   (.running, .archiving), (.archiving, .running), (.updating, .archiving), (.archiving, .updating),
+   (.running, .updating), (.updating, .loading)]
+
 /-- a move is an edge of the generated table -/
 def IsEdge (m : Move) : Prop :=
   ∃ e ∈ edges, e.trigger = m.trigger ∧ e.source = m.src ∧ e.dest = m.dst
